@@ -4,8 +4,12 @@ import Bptk.Core.PyWire
 Driver: an interpreter of BPTK function strings built on `Bptk.C01.evalM` with the carrier instantiated
 by IEEE doubles (Lean `Float` = hardware double: + − × ÷ and comparisons are CPython's).
 Protocol (one reply per line):
-  reset | lit <text> <bits> | spec <start> <dt> <stop> | times <bits,…> | points <name> <x:y,…>
-  el <name> <body words…> | run <name>  → `vals <bits,…>` (value at every grid index)
+  reset | lit <text> <bits> | spec <start> <dt> <stop> <precision> | times <bits,…> | points <name> <x:y,…>
+  el <name> <body words…> | runall → `name=bits,…;…` (value of every element at every grid index, computed
+  level by level with the instrumented evaluator `evalO`: a body that consults anything but earlier indices
+  or a same-index element in an acyclic order yields `bad:`) | solve <K> → the same for indices 0..K computed by
+  the cache-free recursive evaluator `solveF` (what Model.memoize does, without the memo) | acyclic → `true` / `false <names>`:
+  the decidable acyclicity criterion `modelOKb` on the stored function strings
 -/
 open Bptk.Py Bptk.C01
 
@@ -37,6 +41,7 @@ structure St where
   start : Float := 0
   dt : Float := 1
   stop : Float := 0
+  prec : Nat := 0
   times : Array Float := #[]
   points : List (String × List (Float × Float)) := []
   els : List (String × Py) := []
@@ -83,7 +88,7 @@ def carrier (st : St) : TC V where
     | .eq => vbool (x == y) | .ne => vbool (x != y)
     | .and => if truthyF x then b else a
     | .or => if truthyF x then a else b
-    | .mod => .bad "mod" | .pow => .bad "pow"
+    | .mod => .bad "mod" | .pow => .f (Float.pow x y)
   attr := fun v a => match v with
     | .fn "np" => if a == "pi" then .f 3.141592653589793 else .fn ("np." ++ a)
     | .fn n => .fn (n ++ "." ++ a)
@@ -94,6 +99,9 @@ def carrier (st : St) : TC V where
     | .fn "abs", [a] => .f a.num.abs
     | .fn "round", [a] => .f (roundHE a.num)
     | .fn "math.ceil", [a] => .f a.num.ceil
+    | .fn "np.sin", [a] => .f a.num.sin
+    | .fn "np.cos", [a] => .f a.num.cos
+    | .fn "np.exp", [a] => .f a.num.exp
     | .fn "model._lookup", [x, .s tbl] => match st.points.lookup tbl with
       | some pts => .f (lerp pts.toArray x.num)
       | none => .bad ("points " ++ tbl)
@@ -108,29 +116,42 @@ def carrier (st : St) : TC V where
   stop := .f st.stop
   truthy := fun v => truthyF v.num
   idx := fun v =>
+    -- the index `Model.memoize`'s normalisation assigns (Props/C01 `idxOf` on doubles): the grid label equal to
+    -- normalize(x, dt, start, precision) = round(dt * round((x - start)/dt) + start, precision)
     let q := roundHE ((v.num - st.start) / st.dt)    -- Python round(): ties to even
-    if q < 0.0 || q.isNaN then none else some q.toUInt64.toNat
+    let p10 := Float.ofNat (10 ^ st.prec)
+    let key := roundHE ((st.dt * q + st.start) * p10) / p10
+    if q.isNaN then none else (List.range st.times.size).find? fun k => st.times[k]! == key
 
 /-- value of element `n` at index `k`, elements at earlier indices from `hist`; same-index references
-by bounded recursion (acyclic models) -/
-def levelVal (st : St) (C : TC V) (hist : Array (List (String × V))) (k : Nat) : Nat → String → V
-  | 0, _ => .bad "cycle"
+by bounded recursion (acyclic models). Evaluation is `evalO`: asking for anything else is a failure. -/
+def levelVal (st : St) (C : TC V) (hist : Array (List (String × V))) (k : Nat) : Nat → String → Option V
+  | 0, _ => none
   | fuel + 1, n =>
-    match st.els.lookup n with
-    | none => .bad ("unknown element " ++ n)
+    match bodyOf st.els n with
+    | none => none
     | some body =>
-      evalM C (fun m j =>
-        if j < k then (hist[j]?.bind (·.lookup m)).getD (.bad "hist")
+      evalO C (fun m j =>
+        if j < k then hist[j]?.bind (·.lookup m)
         else if j = k then levelVal st C hist k fuel m
-        else .bad "future") (fun _ => .bad "hole") k body
+        else none) (fun _ => .bad "hole") k body
 
 def simulate (st : St) : Array (List (String × V)) := Id.run do
   let C := carrier st
   let mut hist : Array (List (String × V)) := #[]
   for k in [0:st.times.size] do
-    let row := st.els.map fun (n, _) => (n, levelVal st C hist k (st.els.length + 2) n)
+    let row := st.els.map fun (n, _) =>
+      (n, (levelVal st C hist k (st.els.length + 2) n).getD (.bad "consults-outside-acyclic-order"))
     hist := hist.push row
   return hist
+
+/-- the cache-free recursive evaluator of Core/C01 on the same carrier -/
+def solveAll (st : St) (K : Nat) : List (String × List V) :=
+  let C := carrier st
+  let fuel := (K + 1) * (st.els.length + 2)
+  st.els.map fun (n, _) =>
+    (n, (List.range (min (K + 1) st.times.size)).map fun k =>
+      (solveF C st.els (fun _ => .bad "hole") fuel n k).getD (.bad "solveF-none"))
 
 def showV : V → String
   | .f x => hexOfFloat x
@@ -148,9 +169,9 @@ def handle (st : St) (line : String) : St × String :=
   | ["lit", t, b] => match floatOfHex b with
     | some x => ({ st with lits := (t, x) :: st.lits }, "ok")
     | none => (st, "bad-op")
-  | ["spec", a, b, c] => match floatOfHex a, floatOfHex b, floatOfHex c with
-    | some a, some b, some c => ({ st with start := a, dt := b, stop := c }, "ok")
-    | _, _, _ => (st, "bad-op")
+  | ["spec", a, b, c, p] => match floatOfHex a, floatOfHex b, floatOfHex c, p.toNat? with
+    | some a, some b, some c, some p => ({ st with start := a, dt := b, stop := c, prec := p }, "ok")
+    | _, _, _, _ => (st, "bad-op")
   | ["times", ts] => match (ts.splitOn ",").mapM floatOfHex with
     | some xs => ({ st with times := xs.toArray }, "ok")
     | none => (st, "bad-op")
@@ -166,6 +187,16 @@ def handle (st : St) (line : String) : St × String :=
     let h := simulate st
     (st, ";".intercalate (st.els.map fun (n, _) =>
       n ++ "=" ++ ",".intercalate (h.toList.map fun row => showV ((row.lookup n).getD (.bad "missing")))))
+  -- the decidable acyclicity criterion of Core/C01 (`modelOKb`, sound by Props `acyclic_of_modelOKb`) on the real
+  -- function strings, with the rank function computed from the same-time reference graph
+  | ["acyclic"] =>
+    let rk := computeRank st.els
+    (st, if modelOKb st.els (rankFn rk) then "true" else
+      "false " ++ " ".intercalate ((st.els.filter fun p => !elemOKb st.els (rankFn rk) p.1 p.2).map (·.1)))
+  | ["solve", ks] => match ks.toNat? with
+    | some K =>
+      (st, ";".intercalate ((solveAll st K).map fun (n, vs) => n ++ "=" ++ ",".intercalate (vs.map showV)))
+    | none => (st, "bad-op")
   | _ => (st, "bad-op")
 
 partial def loop (h : IO.FS.Stream) (st : St) : IO Unit := do
